@@ -93,7 +93,8 @@ Definition pred := (nat * ekind)%type.
 Record row := mkRow { r_kind : nkind; r_leaf : leaf; r_preds : list pred }.
 (** [d_rows]: the nodes of the subgraph with their incoming edges; [d_outs]: the edges that
     leave the subgraph towards whatever follows it serially; [d_pend]: the end edges of
-    tasks created by the subgraph, which go to whatever follows the enclosing section *)
+    tasks created by the subgraph, which go to whatever follows the enclosing section
+    (in a well-nested tree a task has none left: every create sits in a section) *)
 Record dagres := mkDag { d_rows : list row; d_outs : list pred; d_pend : list pred }.
 
 Section DagItems.
@@ -114,7 +115,7 @@ Fixpoint dag (t : tree) (o : nat) (ins : list pred) : dagres :=
   | Other l => mkDag [mkRow KOther l ins] [(o, EOtherCont)] []
   | Create l c =>
       let a := dag c (S o) [(o, ECreate)] in
-      mkDag (mkRow KCreate l ins :: d_rows a) [(o, ECreateCont)] (d_outs a)
+      mkDag (mkRow KCreate l ins :: d_rows a) [(o, ECreateCont)] (d_outs a ++ d_pend a)
   | Sect items w =>
       let a := dag_items dag items o ins in
       mkDag (d_rows a ++ [mkRow KWait w (d_outs a)])
@@ -122,7 +123,7 @@ Fixpoint dag (t : tree) (o : nat) (ins : list pred) : dagres :=
   | Task items e =>
       let a := dag_items dag items o ins in
       mkDag (d_rows a ++ [mkRow KEnd e (d_outs a)])
-            [((o + length (d_rows a))%nat, EEnd)] []
+            [((o + length (d_rows a))%nat, EEnd)] (d_pend a)
   end.
 
 Definition dag_of (t : tree) : list row := d_rows (dag t 0%nat []).
